@@ -13,7 +13,7 @@ META = {
     'level': 'other',
     'rule_text': 'rule instances: the three Cartesian components of llh2xyz against the closed form on every branch; each branch guarded '
                  'by a special input value against the general branch specialised to that value; provenance (no module-level '
-                 'ellipsoid constant); xyz2llh longitude, fixed-point map, height formula, stopping threshold; angle-argument conversion',
+                 'ellipsoid constant); xyz2llh longitude, fixed-point map, height formula, stopping threshold; angle-argument conversion; defining constants of the shipped ellipsoids and class-derived quantities; statelessness with memo-key analysis; angular_typecheck dispatch per angle class',
     'explanation': 'Static: abstract evaluation of llh2xyz / xyz2llh to exact normal forms compared with the closed-form equations, '
                    'plus R-CONST / R-LEAVES provenance. Decides that every branch (including the latitude == 0 branch) computes the '
                    'closed form on the ellipsoid of the call, and that the inverse iterates the right fixed-point map and derives the height '
